@@ -11,7 +11,7 @@ MODULE = "GmqttVerif.Properties.C11"
 NS = "GmqttVerif.SubStore."
 THEOREMS = [NS + n for n in ["shared_members_exact", "shared_match_exact", "leave_is_local_unsubscribe",
                              "leave_is_local_unsubscribeAll", "leave_is_local"]]
-COMPS = ["substore"]
+COMPS = ["substore", "broker"]
 
 def gen_churn(rng):
     """membership churn on few filters: joins, leaves by UNSUBSCRIBE and by UnsubscribeAll (session end / clean take-over /
@@ -66,7 +66,12 @@ def streams(tier):
          8000 if q else 300000),
         (core.Stream("substore-shared", "substore", c02.gen_shared, c02.predicate, c02.shared_leave_then_query, keep_prefix=1),
          6000 if q else 200000),
+        _wire(tier),
     ]
+
+def _wire(tier):
+    from . import c11wire
+    return c11wire.stream(tier)
 
 RECOGNISERS = c02.RECOGNISERS
 
